@@ -159,7 +159,7 @@ type attemptState struct {
 	served     bool // the request named valid coordinates
 	evIdx      []int
 	steps      int
-	streamGID  int64
+	streamGID  atomic.Int64 // (atomic.Int64 is 8-byte aligned on 32-bit builds too)
 	inHandler  int32
 	maxInHand  int32
 	calls      int32
@@ -210,7 +210,7 @@ func (a *attemptState) quiescent() bool {
 		return false
 	}
 	gs := sched.Probe()
-	sg, ok := sched.Find(gs, int(atomic.LoadInt64(&a.streamGID)))
+	sg, ok := sched.Find(gs, int(a.streamGID.Load()))
 	if !ok || !sched.Blocked(sg.State) {
 		return false
 	}
@@ -374,7 +374,7 @@ func (ss *session) run(at attempt) *attemptState {
 		return err
 	}
 	go func() {
-		atomic.StoreInt64(&st.streamGID, int64(sched.Self()))
+		st.streamGID.Store(int64(sched.Self()))
 		defer func() {
 			// a panic on the caller's goroutine (parser, decoders) must not take the test process
 			// down: it is recorded and every check that looks at this attempt reports it
